@@ -543,3 +543,23 @@ def known_shape_sites(spec, top):
     if root in decls:
         walk(decls[root], False)
     return [a for a in out if a["class"] == top or a["class"].startswith(top + ".") or top.startswith(a["class"] + ".")]
+
+
+def optional_length_across_break(decl, length_name=None):
+    """call sites of known finding C03/optional-length-across-break: optional <length> fields of `decl` whose
+    referencing field or array comes after a <break> (in a later chunk).  When the length is absent (no
+    data left in its chunk) the later chunk may still hold data, and the emitted deserializer hands
+    None to get_fixed_string / range: TypeError"""
+    out = []
+    pending = {}            # optional length name -> a break was seen since
+    for ins in flatten_own(decl.body):
+        if ins.tag == "length" and ins.optional:
+            pending[ins.name] = False
+        elif ins.tag == "break":
+            for k in pending:
+                pending[k] = True
+        elif ins.tag in ("field", "array") and ins.length in pending and pending[ins.length]:
+            out.append({"length": ins.length, "referenced_by": ins.name, "class": decl.name})
+    if length_name is not None:
+        return [o for o in out if o["length"] == length_name]
+    return out
